@@ -163,6 +163,37 @@ func runScenario(k *hubkit.Kit, c *Case, dist map[string]int) map[uint64]*peerIn
 				dist["send:oversize"]++
 				continue
 			}
+			if o.NoPing {
+				// the sender does not read, so it cannot see a pong; the message has reached the hub when a
+				// reader that keeps up has it (nobody else sends meanwhile, so the script order stands)
+				k.Send(pi.p, o.MT, data, false)
+				var fast *hubkit.Peer
+				for _, q := range order {
+					if qi := peers[q.Name]; q != pi.p && qi.leftAt < 0 && has(qi.scopes, "read") && !c.slow(q.Name) {
+						fast = q
+						break
+					}
+				}
+				id := o.ID
+				o.Ack = fast != nil && hubkit.WaitFor(2*time.Second, func() bool {
+					for _, f := range fast.Frames() {
+						for _, it := range f.Info.(finfo).items {
+							if it.ID == id {
+								return true
+							}
+						}
+					}
+					return false
+				})
+				if o.Ack && k.Hooks.Count("hub.afterDrop", pi.p.BID) > 0 {
+					dist["send:by-dropped-but-open-connection"]++
+				} else if o.Ack {
+					dist["send:by-stalled-connection"]++
+				} else {
+					dist["send:noping-not-relayed"]++
+				}
+				continue
+			}
 			_, o.Ack = k.Send(pi.p, o.MT, data, true)
 			if !o.Ack {
 				c.Discard = "unacked-send"
@@ -412,6 +443,15 @@ func hubOrder(c *Case) []int {
 		i = j
 	}
 	return order
+}
+
+func (c *Case) slow(n uint64) bool {
+	for _, o := range c.Ops {
+		if o.K == "join" && o.N == n {
+			return o.Slow
+		}
+	}
+	return false
 }
 
 func sizeClass(n int) string {
